@@ -441,7 +441,13 @@ def permuted_text(rng: random.Random, m: gen.GModel, what: str):
             else:
                 out.append(b)
         rng.shuffle(out)
-        blocks = bare + out
+        # a header-less group of assignments belongs to the unnamed component wherever it stands, except directly after a
+        # headed expressions block (the grammar reads it as a continuation of that block): any other place is fair
+        blocks = out
+        for b in bare:
+            ok = [i for i in range(len(blocks) + 1) if i == 0 or blocks[i - 1][0] != "expressions"]
+            i = rng.choice(ok)
+            blocks = blocks[:i] + [b] + blocks[i:]
     return blocks_text(blocks, m.header)
 
 
